@@ -351,6 +351,10 @@ func (t *tcpPeer) exercise(r *gen.Rng, ep tcpip.Endpoint, cfg tcpCfg) {
 		writes = []int{1 + r.Intn(9), 2 * (1 + r.Intn(400)), 2*r.Intn(700) + 1, 3000 + r.Intn(2000)}
 		islands = 3
 	}
+	if r.Intn(2) == 0 {
+		// more islands than a SACK option can carry (4 blocks, 3 next to a timestamp option)
+		islands = 4 + uint32(r.Intn(3))
+	}
 	for _, n := range writes {
 		if _, _, er := ep.Write(tcpip.SlicePayload(pattern(r, n)), tcpip.WriteOptions{}); er != nil {
 			break
